@@ -69,6 +69,18 @@ CLAIMED = {
                      'on small tables, and of find_layers/ncomp_from_gmm on the thirty-hit construction (ascending / descending rows, '
                      'look-back 20/100): reported bases at least the configured separation apart.',
                 ref='DESIGN.md 4/C06', note=TRUST + '; real-number semantics; stable sort on equal time stamps'),
+    'C10': dict(text='2-run bounded symbolic execution of the whole chain (real constructor with the consistency check and the MSA '
+                     'cropping): a symbolic accepted table plainly indexed vs the same values under arbitrary (repeated) symbolic '
+                     'index labels, an extra column, permuted columns and three dtype variants; equality of all results decided by z3.',
+                ref='DESIGN.md 4/C10', note=TRUST + '; label semantics of the pandas model (repeated labels raise / select as in pandas)'),
+    'C14': dict(text='Inductive step: from each of the four canonical states (reached by the real stages, library answers stubbed and '
+                     'memoised) each of the ten operations once; z3 decides per path that the call raises AmpycloudError leaving '
+                     'everything unchanged or leaves a canonical state of the same inputs. Call sequences of any length follow by induction; '
+                     'rows are bounded. Known finding D7 (column isolated after re-slicing) is listed, not suppressed beyond that column.',
+                ref='DESIGN.md 4/C14', note=TRUST),
+    'C16': dict(text='2-run bounded symbolic execution of the whole chain under two namings of the ceilometers (swap, names that sort '
+                     'differently, prefix names), exclusion list mapped: equality of all results decided by z3.',
+                ref='DESIGN.md 4/C16', note=TRUST + '; names are concrete strings, their assignment to hits is symbolic'),
 }
 NA = {}
 
